@@ -287,7 +287,7 @@ def generate(p):
     # a generation that runs away (an engine regression once made one proof loop for 15 minutes) ends as 'outside reach'
     # (undecided, exit 2) instead of hanging the check
     import signal
-    budget = int(os.environ.get('VERIF_GEN_TIMEOUT', getattr(p.cls, 'gen_timeout', 600)))
+    budget = int(os.environ.get('VERIF_GEN_TIMEOUT', getattr(p.cls, 'gen_timeout', 180 if os.environ.get('VERIF_TIER_NOW', 'quick') == 'quick' else 900)))
 
     def _alarm(signum, frame):
         raise Unsupported(f"symbolic execution of the proof exceeded {budget} s")
@@ -574,12 +574,17 @@ def conforms(t, v):
     return True
 
 
+class NativeTimeout(BaseException):
+    pass
+
+
 def run_native(p, inputs):
     """Run proof p on concrete inputs with CPython.  Returns (status, detail):
     'skip' (precondition false), 'ok', or 'violation' with the failed clause names."""
     import copy
     for k, t in p.inputs.items():
-        if k in inputs and not conforms(t, inputs[k]):
+        # (the declared types of a bounded-only proof are never used symbolically: its samples are taken as they are)
+        if not p.bounded_only and k in inputs and not conforms(t, inputs[k]):
             return 'skip', f"input {k} outside its declared type"
     try:
         if p.requires is not None and not p.requires(**_subset(p.requires, copy.deepcopy(inputs))):
@@ -587,10 +592,25 @@ def run_native(p, inputs):
     except Exception as e:      # noqa
         return 'skip', f"requires raised {e!r}"
     args = copy.deepcopy(inputs)
+    # a native run that does not come back is a finding, not a reason to hang the check: the real code once looped for ever on a
+    # five-byte datagram.  The budget is generous (runs normally take milliseconds; the slowest stand-ins a few seconds).
+    import signal
+    import threading
+    limit = int(os.environ.get('VERIF_NATIVE_TIMEOUT', getattr(p.cls, 'native_timeout', 120)))
+    use_alarm = hasattr(signal, 'SIGALRM') and threading.current_thread() is threading.main_thread() and \
+        signal.getitimer(signal.ITIMER_REAL)[0] == 0
+
+    def _alarm(signum, frame):
+        raise NativeTimeout()
+    if use_alarm:
+        old_handler = signal.signal(signal.SIGALRM, _alarm)
+        signal.setitimer(signal.ITIMER_REAL, limit, 2)
     try:
         r = p.run(**args)
         if inspect.iscoroutine(r):
             r = asyncio.run(r)
+    except NativeTimeout:
+        return 'violation', [f"no result within {limit} s: the real code does not terminate (or its cost ran away) on this input"]
     except BaseException as e:      # noqa
         if isinstance(e, (KeyboardInterrupt, SystemExit)):
             raise
@@ -599,7 +619,16 @@ def run_native(p, inputs):
                 if cond is True or cond(**_subset(cond, copy.deepcopy(inputs))):
                     return 'ok', f"raised {type(e).__name__} (allowed)"
                 return 'violation', [f"raises[{type(e).__name__}]: {e!r}"]
+        if isinstance(e, AttributeError) and getattr(e, 'obj', None) is not None and \
+                (type(e.obj).__module__ or '').split('.')[0] in ('contracts', 'pyvc'):
+            # the code under contract touched an attribute that the duck-typed stand-in of the contract file does not have: the
+            # harness no longer describes the call site.  That is a gap of the contract (undecided), not a violation of the property.
+            return 'gap', [f"harness gap: {type(e.obj).__name__} (a stand-in object of the contract file) has no attribute {e.name!r}"]
         return 'violation', [f"raises-nothing-else[{type(e).__name__}]: {e!r}"]
+    finally:
+        if use_alarm:
+            signal.setitimer(signal.ITIMER_REAL, 0)
+            signal.signal(signal.SIGALRM, old_handler)
     failed = []
     for cname, fn in p.ensures:
         try:
